@@ -621,3 +621,140 @@ func allPairs(r *rt.Run, p *pools, fn func(a, b *shp, w *rt.Worker)) {
 	forPairs(r, p.bigRing, p.bigRing, true, fn)
 	r.ParFor(len(p.slantPair), func(i int, w *rt.Worker) { fn(p.slantPair[i][0], p.slantPair[i][1], w) })
 }
+
+// sharedRings: two polygons that share one Ring object (the plug of a hole is
+// built around the very ring value the other polygon uses as its hole; a copy
+// of a polygon without its holes re-uses its exterior ring value): answers
+// must be those of polygons built separately from the same positions.
+func sharedRings(r *rt.Run, p *pools, class string) {
+	pool := append(append([]*shp{}, p.holed...), p.holed2A...)
+	r.ParFor(len(pool), func(i int, w *rt.Worker) {
+		a := pool[i]
+		for ci, ga := range []*geometry.Poly{a.G.(*geometry.Poly), a.G2.(*geometry.Poly)} {
+			var rings []geometry.Ring
+			var pts [][]exact.P
+			for hi, h := range ga.Holes {
+				rings = append(rings, h)
+				pts = append(pts, a.E.Holes[hi])
+			}
+			rings = append(rings, ga.Exterior)
+			pts = append(pts, a.E.Ext)
+			for ri, ring := range rings {
+				shared := &geometry.Poly{Exterior: ring}
+				fresh := geometry.NewPoly(ident.pts(pts[ri]), nil, idxNone)
+				got := [4]bool{ga.IntersectsPoly(shared), shared.IntersectsPoly(ga), ga.ContainsPoly(shared), shared.ContainsPoly(ga)}
+				want := [4]bool{ga.IntersectsPoly(fresh), fresh.IntersectsPoly(ga), ga.ContainsPoly(fresh), fresh.ContainsPoly(ga)}
+				w.Evals += 8
+				w.States++
+				w.Nontriv++
+				if got != want {
+					ci, ri := ci, ri
+					w.Fail(class, func() (rt.Case, string, string) {
+						return rt.Case{Kind: "shared-ring", Op: fmt.Sprintf("%d/%d", ci, ri), A: descShape(a.E, ident)}, fmt.Sprintf("as with a separately built ring: %v", want), fmt.Sprint(got)
+					})
+				}
+			}
+		}
+	})
+}
+
+func evalSharedRing(c *rt.Case) (bool, string, string, error) {
+	ea, ok := exactOf(c.A, ident)
+	if !ok || ea.Kind != exact.KPoly {
+		return false, "", "", fmt.Errorf("coordinates outside the exact domain")
+	}
+	var ci, ri int
+	fmt.Sscanf(c.Op, "%d/%d", &ci, &ri)
+	cfg := idxNone
+	if ci == 1 {
+		cfg = idxCfgs[2].Opts
+	}
+	ga := geomOf(ea, ident, cfg).(*geometry.Poly)
+	var ring geometry.Ring
+	var pts []exact.P
+	switch {
+	case ri < len(ga.Holes):
+		ring, pts = ga.Holes[ri], ea.Holes[ri]
+	case ri == len(ga.Holes):
+		ring, pts = ga.Exterior, ea.Ext
+	default:
+		return false, "", "", fmt.Errorf("malformed case")
+	}
+	shared := &geometry.Poly{Exterior: ring}
+	fresh := geometry.NewPoly(ident.pts(pts), nil, idxNone)
+	got := [4]bool{ga.IntersectsPoly(shared), shared.IntersectsPoly(ga), ga.ContainsPoly(shared), shared.ContainsPoly(ga)}
+	want := [4]bool{ga.IntersectsPoly(fresh), fresh.IntersectsPoly(ga), ga.ContainsPoly(fresh), fresh.ContainsPoly(ga)}
+	return got != want, fmt.Sprint(want), fmt.Sprint(got), nil
+}
+
+// retracedLines: a staircase that comes back over one of its own steps
+// (positions (0,0),(1,0),(1,1),...,(k,k),(-k,k),(-k,1),(2,1): the last leg
+// lies on the step (1,1)-(2,1) again), under each index configuration, and
+// every sub-path of 2 and 3 consecutive positions of it, forwards and
+// backwards: each lies on the line, so Contains must be true.
+func retracedLines(r *rt.Run) {
+	type job struct{ k, ci int }
+	var jobs []job
+	for _, k := range []int{3, 5, 9, 17, 35} {
+		for ci := range idxCfgs {
+			jobs = append(jobs, job{k, ci})
+		}
+	}
+	r.ParFor(len(jobs), func(i int, w *rt.Worker) {
+		jb := jobs[i]
+		pts := retracedStair(jb.k)
+		A := geometry.NewLine(pts, idxCfgs[jb.ci].Opts)
+		w.States++
+		for s := 0; s+1 < len(pts); s++ {
+			for n := 2; n <= 3 && s+n <= len(pts); n++ {
+				for rev := 0; rev < 2; rev++ {
+					sub := append([]geometry.Point(nil), pts[s:s+n]...)
+					if rev == 1 {
+						for a, b := 0, len(sub)-1; a < b; a, b = a+1, b-1 {
+							sub[a], sub[b] = sub[b], sub[a]
+						}
+					}
+					B := geometry.NewLine(sub, idxNone)
+					w.Evals++
+					w.Nontriv++
+					if !A.ContainsLine(B) {
+						s, n, rev := s, n, rev
+						w.Fail("contains-line-line-false-negative-retraced", func() (rt.Case, string, string) {
+							return rt.Case{Kind: "retraced", Op: "contains", Cfg: idxCfgs[jb.ci].Name, Nums: []float64{float64(jb.k), float64(s), float64(n), float64(rev)}}, "true (a sub-path of the line)", "false"
+						})
+					}
+				}
+			}
+		}
+	})
+}
+
+func retracedStair(k int) []geometry.Point {
+	var pts []geometry.Point
+	for i := 0; i <= k; i++ {
+		pts = append(pts, geometry.Point{X: float64(i), Y: float64(i)})
+		if i < k {
+			pts = append(pts, geometry.Point{X: float64(i + 1), Y: float64(i)})
+		}
+	}
+	return append(pts, geometry.Point{X: float64(-k), Y: float64(k)}, geometry.Point{X: float64(-k), Y: 1}, geometry.Point{X: 2, Y: 1})
+}
+
+func evalRetraced(c *rt.Case) (bool, string, string, error) {
+	if len(c.Nums) < 4 {
+		return false, "", "", fmt.Errorf("malformed case")
+	}
+	k, s, n, rev := int(c.Nums[0]), int(c.Nums[1]), int(c.Nums[2]), int(c.Nums[3])
+	pts := retracedStair(k)
+	if k < 1 || k > 1000 || s < 0 || n < 2 || s+n > len(pts) {
+		return false, "", "", fmt.Errorf("malformed case")
+	}
+	sub := append([]geometry.Point(nil), pts[s:s+n]...)
+	if rev == 1 {
+		for a, b := 0, len(sub)-1; a < b; a, b = a+1, b-1 {
+			sub[a], sub[b] = sub[b], sub[a]
+		}
+	}
+	got := geometry.NewLine(pts, cfgByName(c.Cfg)).ContainsLine(geometry.NewLine(sub, idxNone))
+	return !got, "true", fmt.Sprint(got), nil
+}
